@@ -257,11 +257,15 @@ def _inline_one_yield_generators(body: List[ast.stmt], res: NormResult) -> List[
                 return node
 
         body = [Inl0().visit(s) for s in body]
+    gen_params: Dict[str, List[str]] = {}
     for s in body:
-        if isinstance(s, ast.FunctionDef) and not s.args.args and len(s.body) == 1:
+        a_ = s.args if isinstance(s, ast.FunctionDef) else None
+        if (isinstance(s, ast.FunctionDef) and len(s.body) == 1 and a_ is not None
+                and not (a_.vararg or a_.kwarg or a_.kwonlyargs or a_.defaults or a_.posonlyargs)):
             b = s.body[0]
             if isinstance(b, ast.Expr) and isinstance(b.value, ast.Yield) and b.value.value is not None:
                 gens[s.name] = b.value.value
+                gen_params[s.name] = [x.arg for x in a_.args]  # `def just(root): yield root` ... `just(node)`
                 continue
         out.append(s)
     if not gens:
@@ -270,9 +274,11 @@ def _inline_one_yield_generators(body: List[ast.stmt], res: NormResult) -> List[
     class Inl(ast.NodeTransformer):
         def visit_Call(self, node: ast.Call) -> ast.AST:
             self.generic_visit(node)
-            if isinstance(node.func, ast.Name) and node.func.id in gens and not node.args:
+            if (isinstance(node.func, ast.Name) and node.func.id in gens and not node.keywords
+                    and len(node.args) == len(gen_params[node.func.id]) and not any(isinstance(x, ast.Starred) for x in node.args)):
                 res.idioms.append("one-yield local generator == one-element list")
-                return ast.List(elts=[copy.deepcopy(gens[node.func.id])], ctx=ast.Load())
+                value = _Param(dict(zip(gen_params[node.func.id], node.args))).visit(copy.deepcopy(gens[node.func.id]))
+                return ast.List(elts=[value], ctx=ast.Load())
             return node
 
     return [Inl().visit(s) for s in out]
